@@ -414,6 +414,14 @@ def run(repo, rep):
     plane_rules(repo, rep, orc)
     fvc_rules(repo, rep, orc)
     dispersion_rule(repo, rep)
+    # every local is assigned on all paths to its uses: a branch chain without its closing case (wet_temp > 0 / wet_temp < 0 and nothing for
+    # exactly 0 - a temperature the property names) leaves the variable unbound
+    from ..rules import defassign_rule
+    for q in ('first_vel_params', 'part_h2o_vap_press', 'first_vel_corrn', 'mets_partial_differentials', 'va_conv', 'joins', 'radiations',
+              'phase_refractivity', 'group_refractivity', 'humidity2part_water_vapour_press'):
+        g_ = repo.module('geodepy.survey').functions.get(q)
+        if g_ is not None:
+            defassign_rule(rep, g_)
     # the raising tests of every routine as predicates over the property's input box: none may fire inside it
     box = 'the quantifier of the property (coordinates to 1e7 m, the full circle of bearings plus a rotation, zenith angles 0..360, slope distances to 50 km)'
     common.domain_guards(repo, rep, 'geodepy.convert', 'polar2rect', ['r', 'theta'], {'r': (0, 10000000), 'theta': (-360, 720)}, box)
